@@ -84,10 +84,6 @@ structure Prog where
 structure Frame where
   key     : Key
   prevent : Bool
-  /-- the running function object is a *modifier clone* (`with_context_args`, `ignore_result`,
-      `with_prevent_further_calls`, …): `clone_with` passes `version=self.version()`, so the clone
-      carries an explicit version and its nested calls are not validated -/
-  viaClone : Bool := false
   invs    : List Key
   res     : List Nat
   deps    : List Fn
@@ -147,11 +143,11 @@ def serve (r : Rec) (fl : Flags) : Outcome := if fl.ignore && !r.out.isExc then 
 /-- `memento_run_local` for one key, given the body evaluator for this fuel level -/
 def runLocal (P : Prog)
     (exec : Body → St → Frame → Option (St × Outcome × Frame))
-    (s : St) (key : Key) (fl : Flags) (clone : Bool) : Option (St × Outcome × Rec) :=
+    (s : St) (key : Key) (fl : Flags) : Option (St × Outcome × Rec) :=
   match s.get key with
   | some r => some (s, serve r fl, r)                       -- re-check under the mutex
   | none =>
-    let fr0 : Frame := { key, prevent := fl.prevent, viaClone := clone, invs := [], res := [], deps := [key.fn] }
+    let fr0 : Frame := { key, prevent := fl.prevent, invs := [], res := [], deps := [key.fn] }
     let s0 := { s with trace := s.trace ++ [key] }          -- the body starts executing
     match exec (P.body key.fn key.arg) s0 fr0 with
     | none => none
@@ -168,20 +164,20 @@ def runLocal (P : Prog)
         some (s2, if fl.ignore then .val none else o, r)
 
 /-- the per-element loop of `LocalRunnerBackend.batch_run` (bulk pre-check results in `pre`) -/
-def batchLoop (P : Prog) (exec : Body → St → Frame → Option (St × Outcome × Frame)) (fl : Flags) (clone : Bool) :
+def batchLoop (P : Prog) (exec : Body → St → Frame → Option (St × Outcome × Frame)) (fl : Flags) :
     St → List (Key × Option Rec) → Option (St × List Outcome × List Rec)
   | s, [] => some (s, [], [])
   | s, (key, pre) :: rest =>
     match pre with
     | some r =>
-      match batchLoop P exec fl clone s rest with
+      match batchLoop P exec fl s rest with
       | none => none
       | some (s', os, rs) => some (s', serve r fl :: os, r :: rs)
     | none =>
-      match runLocal P exec s key fl clone with
+      match runLocal P exec s key fl with
       | none => none
       | some (s1, o, r) =>
-        match batchLoop P exec fl clone s1 rest with
+        match batchLoop P exec fl s1 rest with
         | none => none
         | some (s', os, rs) => some (s', o :: os, r :: rs)
 
@@ -192,7 +188,7 @@ def runBatchWith (P : Prog) (exec : Body → St → Frame → Option (St × Outc
     Option BatchResult :=
   -- `_validate_dependency` (only the immediate calling frame is consulted)
   let undeclared := match caller with
-    | some fr => !(P.explicit fr.key.fn) && !fr.viaClone && fr.key.fn != fn && !(P.declared fr.key.fn fn)
+    | some fr => !(P.explicit fr.key.fn) && fr.key.fn != fn && !(P.declared fr.key.fn fn)
     | none => false
   if undeclared then some (s, .error (.exc clsUndeclared 0), [])
   else
@@ -204,8 +200,7 @@ def runBatchWith (P : Prog) (exec : Body → St → Frame → Option (St × Outc
       let c := effCtx caller ctx
       let keys := args.map (fun a => (⟨fn, a, c⟩ : Key))
       let pre := keys.map (fun k => (k, s.get k))            -- one bulk `get_mementos`
-      let clone := (match ctx with | .inherit => false | .set _ => true) || fl.ignore || fl.prevent
-      match batchLoop P exec fl clone s pre with
+      match batchLoop P exec fl s pre with
       | none => none
       | some (s', os, rs) => some (s', .ok os, rs)
 
